@@ -363,6 +363,11 @@ func c05r2(p *Program, r *Report) {
 				}
 				d := newDBM(g, f, assumedFacts[fi.Name])
 				nn := d.nonNeg(sz)
+				if !nn {
+					// one level of call-site preconditions: the size is (a field of) a parameter and every caller
+					// has excluded negative values before the call
+					nn = nonNegAtCallSites(p, fi, sz)
+				}
 				ub, hasUB := d.constUpper(sz)
 				bounded := hasUB && ub <= maxDecodeAlloc
 				why := ""
@@ -1007,4 +1012,104 @@ func c05r9(p *Program, r *Report) {
 			return true
 		})
 	})
+}
+
+// nonNegAtCallSites: sz is p or p.f... for a parameter p of fi that fi does not modify before use; at every
+// static call site the corresponding argument expression is known to be non-negative (`arg.f < 0` is false).
+func nonNegAtCallSites(p *Program, fi *FuncInfo, sz ast.Expr) bool {
+	info := fi.Pkg.TypesInfo
+	root := rootIdent(sz)
+	if root == nil {
+		return false
+	}
+	pv, ok := info.Uses[root].(*types.Var)
+	if !ok {
+		return false
+	}
+	sig := fi.Obj.Type().(*types.Signature)
+	idx := -1
+	for i := 0; i < sig.Params().Len(); i++ {
+		if sig.Params().At(i) == pv {
+			idx = i
+		}
+	}
+	if idx < 0 {
+		return false
+	}
+	szStr := exprStr(sz)
+	// not modified in the callee
+	modified := false
+	ast.Inspect(fi.Decl.Body, func(n ast.Node) bool {
+		switch s := n.(type) {
+		case *ast.AssignStmt:
+			for _, l := range s.Lhs {
+				if exprStr(l) == szStr || isIdentOf(info, l, pv) {
+					modified = true
+				}
+			}
+		case *ast.IncDecStmt:
+			if exprStr(s.X) == szStr {
+				modified = true
+			}
+		}
+		return true
+	})
+	if modified {
+		return false
+	}
+	nsites, okAll := 0, true
+	for _, caller := range p.SortedFuncs() {
+		if caller.Decl.Body == nil {
+			continue
+		}
+		cinfo := caller.Pkg.TypesInfo
+		ast.Inspect(caller.Decl.Body, func(n ast.Node) bool {
+			c, ok := n.(*ast.CallExpr)
+			if !ok {
+				return true
+			}
+			fn := calleeOf(cinfo, c)
+			if fn == nil || p.FuncOf(fn) != fi || idx >= len(c.Args) {
+				return true
+			}
+			nsites++
+			argE := ast.Unparen(c.Args[idx])
+			if u, ok := argE.(*ast.UnaryExpr); ok && u.Op == token.AND {
+				argE = ast.Unparen(u.X)
+			}
+			cands := []string{exprStr(argE)}
+			// an embedded struct passed by address: its fields are also visible (promoted) on the outer value
+			for {
+				sel, ok := argE.(*ast.SelectorExpr)
+				if !ok {
+					break
+				}
+				if fv := fieldOf(cinfo, sel); fv == nil || !fv.Embedded() {
+					break
+				}
+				argE = ast.Unparen(sel.X)
+				cands = append(cands, exprStr(argE))
+			}
+			g := p.GraphOf(caller)
+			if lit, ok := p.enclosingFuncNode(c).(*ast.FuncLit); ok {
+				g = p.GraphOfLit(caller, lit)
+			}
+			f, reach := g.GuardFacts().Before(p.stmtOf(c, caller))
+			if !reach {
+				return true
+			}
+			siteOK := false
+			for _, arg := range cands {
+				sub := arg + strings.TrimPrefix(szStr, root.Name)
+				if v, known := f.m[sub+" < 0"]; known && !v {
+					siteOK = true
+				}
+			}
+			if !siteOK {
+				okAll = false
+			}
+			return true
+		})
+	}
+	return nsites > 0 && okAll
 }
